@@ -191,7 +191,10 @@ func (s LocalStore) Prune(ctx context.Context, ids map[ChunkID]struct{}) error {
 
 		// If the chunk is only partially downloaded remove it
 		if strings.HasPrefix(filepath.Base(path), tmpChunkPrefix) {
-			_ = os.Remove(path)
+			// It can be gone already if the writer it belongs to has just finished
+			if err := os.Remove(path); err != nil && !os.IsNotExist(err) {
+				return err
+			}
 			return nil
 		}
 
